@@ -16,8 +16,9 @@ real server by go/harness/c04):
 
 What is proved instead: `_witness` theorems (concrete short request sequences on which the model — and
 the real server — violates each clause) and `_partial` theorems under explicit decidable carve-outs:
-`CleanReq` (every column of a batch as long as its `time` column — NO restriction on names any more) for
-the no-panic clause; "one record, no FlushAll" for the rejected-stores-nothing clause; "not `_`-prefixed,
+`CleanReq` (the TYPED batches built by parsers outside the model — typed msgpack path, TLE, CSV, Parquet —
+have columns of one length; nothing is asked of names, of generic or of row records) for the no-panic
+clause, which is unconditional for requests without typed records (`C04_full_untyped`); "one record, no FlushAll" for the rejected-stores-nothing clause; "not `_`-prefixed,
 not empty" for the names clause.
 
 History. Two panics of the first round were repaired in /repo and the model follows the regenerated
@@ -26,6 +27,9 @@ witness C04_full_witness_empty_name is now the theorem C04_empty_name_rejected) 
 (mergeBatches returns an error instead of failing a type assertion — the former witnesses
 C04_full_witness_underscore_type_change / _request_goroutine are now
 C04_names_witness_underscore_conflict_rows_lost: no panic, but the acknowledged rows are lost).
+3fc3856 (decodeRow rejects a tag/field called `time`; convertColumnsToTyped refuses columns of unequal
+length): the former witness C04_full_witness_time_field is now C04_time_field_rejected, and the
+ragged-batch carve-out of C04_partial is gone for everything the model itself converts.
 -/
 namespace Arc.C04
 open Arc.Generated.C04
@@ -38,6 +42,7 @@ theorem C04_facts_tied :
     sigSkipsEmpty = true ∧ sigSkipsUnderscore = true ∧ schemaGuardsEmpty = true ∧
     writeRejectsEmptyName = true ∧ schemaSkipsUnderscore = true ∧ mergeUncheckedAsserts = 0 ∧
     permBoundsChecked = false ∧ validPermBoundsChecked = false ∧ sliceBoundsChecked = true ∧
+    convertChecksLengths = true ∧ decodeRowRejectsTime = true ∧
     rowTimeGuard = false ∧ flushGoroutinesRecover = false ∧ writeAtomic = false ∧
     handlerPanicsRecovered = true ∧ importRejectsEmptyName = true := by decide
 
@@ -108,12 +113,19 @@ theorem C04_empty_name_rejected (cfg : Cfg) (s : St) (db meas : Name) (b : Batch
 example : (lifetime big [reqEmptyName]).toOption.map (fun o => (o.1.map (fun r => (r.status, r.added)), o.2.stored, o.2.lost))
     = some ([(500, 0)], 0, 0) := by decide
 
-/-- a row-format field called `time` doubles the time column; one hour, unsorted ⇒ applyPermutation
-indexes the shorter columns out of range -/
-theorem C04_full_witness_time_field : crashSite (lifetime big [reqTimeField]) = some .permIndex := by decide
+/-- a row-format field called `time` still doubles the time column in rowsToColumnar, but the typing
+chokepoint now refuses the ragged columns: 500, nothing buffered, nothing crashes (on the real server
+decodeRow already answers 400) -/
+theorem C04_time_field_rejected :
+    (lifetime big [reqTimeField]).toOption.map (fun o => (o.1.map (fun r => (r.status, r.added, r.panic)), o.2.stored, o.2.lost))
+      = some ([(500, 0, none)], 0, 0) := by decide
 
-/-- C04_full under the carve-out: a server that only ever receives requests whose batches have columns
-of one length never panics — neither a handler nor a flush goroutine — whatever the column NAMES (empty,
+/-- …for ANY generic or row record: what `convert` lets through has columns of one length -/
+theorem C04_convert_even (cols : List (Name × List Cell)) (times : List Int) (nrec : Nat) (b : Batch)
+    (h : convert cols times nrec = some b) : evenBatch b = true := convert_even h
+
+/-- C04_full under the producer contract: a server whose typed-path parsers hand over batches with
+columns of one length never panics — neither a handler nor a flush goroutine — whatever the column NAMES (empty,
 `_`-prefixed, reserved), the interleaving of endpoints, measurements, signature and type changes, buffer
 size and WAL setting. -/
 theorem C04_partial (cfg : Cfg) (reqs : List Req) (h : ∀ r ∈ reqs, CleanReq r = true) :
@@ -131,9 +143,35 @@ example : (∀ r ∈ [reqPlain mN vN .i64 t0, reqPlain mN vN .f64 (t0 + 1), reqP
     (lifetime big [reqPlain mN vN .i64 t0, reqPlain mN vN .f64 (t0 + 1), reqPlain nN vN .str t0, reqPlain mN vN .f64 (t0 + 2)]).toOption.map
       (fun o => (o.1.map (·.status), o.2.stored, o.2.lost)) = some ([204, 204, 204, 204], 4, 0) := by decide
 
-/-- the carve-out now only excludes the ragged batch of the `time` field; unusual names are inside it -/
-example : CleanReq reqEmptyName = true ∧ CleanReq (reqUnderscore .i64 t0) = true ∧ CleanReq reqTimeField = false := by
+/-- unusual names and the `time` field are all inside the hypothesis now; only a ragged TYPED batch is not -/
+example : CleanReq reqEmptyName = true ∧ CleanReq (reqUnderscore .i64 t0) = true ∧ CleanReq reqTimeField = true ∧
+    CleanReq { ep := .csv, db := dbN, recs := [.typed mN ⟨[tcol 2, ⟨vN, .i64, 1, 0⟩], [t0, t0 - 1], 2⟩] } = false := by
   decide
+
+def Rec.isTyped : Rec → Bool
+  | .typed _ _ => true
+  | _ => false
+
+/-- C04_full (no-panic clause) at FULL strength for every sequence of requests that carry no typed
+record — all generic msgpack (batch / array / row format) and all line-protocol traffic: no hypothesis
+on names, types, lengths, cell kinds, order, buffer size or WAL. -/
+theorem C04_full_untyped (cfg : Cfg) (reqs : List Req)
+    (h : ∀ r ∈ reqs, ∀ rec ∈ r.recs, rec.isTyped = false) :
+    ∃ out, lifetime cfg reqs = .ok out ∧ ∀ resp ∈ out.1, resp.panic = none := by
+  apply C04_partial
+  intro r hr
+  unfold CleanReq
+  simp only [List.all_eq_true]
+  intro rec hrec
+  have := h r hr rec hrec
+  cases rec <;> simp_all [CleanRec, Rec.isTyped]
+
+/-- non-vacuity: ragged generic columns, a `time` field, an empty name and a `_x` type change, all
+without typed records: nothing panics -/
+example : (lifetime ⟨2, true⟩ [reqTimeField, reqGoodThenBad,
+      { ep := .msgpack, db := dbN, vmeas := [mN], recs := [.generic mN [(timeName, [.int, .int]), (vN, [.int])] [t0, t0 - 1] 2] },
+      { ep := .lp, db := dbN, vmeas := [mN], recs := [.generic mN [(timeName, [.int]), (uxN, [.int]), ([], [.str])] [t0] 1] }]).toOption.map
+    (fun o => o.1.map (fun r => (r.status, r.panic))) = some [(500, none), (500, none), (500, none), (500, none)] := by decide
 
 /-! ## clause 2: a rejected request stores no rows -/
 
